@@ -112,6 +112,14 @@ def gcirc_body(case):
         rt, dt_ = ('u1', 'i1') if narrow and case.get('narrow_int') else ('u4', 'i4')
         gi = np.asarray(call(gcirc, ai[:, 0].astype(rt), ai[:, 1].astype(dt_), ai[:, 2].astype(rt), ai[:, 3].astype(dt_), units=units), dtype='f8')
         note_label('integer-columns:' + rt)
+        # round 12: the same whole numbers with the columns in different types in one call (float64 right ascensions next to 8-bit
+        # declinations, a float reference position against an integer catalogue): the same distances
+        mixes = [('f8', dt_, 'f8', dt_), (rt, 'f8', rt, 'f8'), ('f8', 'f8', rt, dt_), (rt, dt_, 'f8', 'f8')]
+        mx = mixes[int(abs(float(a[0, 0])) * 1000) % len(mixes)]
+        gm = np.asarray(call(gcirc, ai[:, 0].astype(mx[0]), ai[:, 1].astype(mx[1]), ai[:, 2].astype(mx[2]), ai[:, 3].astype(mx[3]), units=units), dtype='f8')
+        with judge('gcirc-mixed-column-types'):
+            check(gm.shape == gi.shape and bool(np.all(np.abs(gm - gi) <= 1e-6 * np.abs(gi) + 1e-3)), 'gcirc:columns-of-mixed-types-give-other-distances',
+                  lambda: dict(units=units, types=mx, mixed=gm.tolist()[:4], all_integer=gi.tolist()[:4]))
         ri = ai.astype(LD) * (PI_LD / 180)
         if units == 1:
             ri[:, 0] *= 15
